@@ -47,6 +47,39 @@ func resetC15() {
 	}
 }
 
+// a panicking microtask while nobody reads the module error channel: the
+// report is dropped, the microtask is still concluded and its error returned
+func VerifC15_PanicWithUnreadErrorChannel() {
+	rt.NoTimers()
+	rt.SchedYieldOnly(true)
+	m := c15Setup(2)
+	lastReportedError = nil
+	full := rt.Bool("channel-full-instead-of-unbuffered")
+	var ch chan *ModuleError
+	if full {
+		ch = make(chan *ModuleError, 1)
+		ch <- &ModuleError{}
+	} else {
+		ch = make(chan *ModuleError)
+	}
+	SetErrorReportingChannel(ch)
+	defer SetErrorReportingChannel(nil)
+	var err error
+	switch rt.Choice("variant", 3) {
+	case 0:
+		err = m.RunHighPriorityMicroTask("mt", func(context.Context) error { panic("boom") })
+	case 1:
+		err = m.RunMicroTask("mt", 0, func(context.Context) error { panic("boom") })
+	case 2:
+		err = m.RunLowPriorityMicroTask("mt", 0, func(context.Context) error { panic("boom") })
+	}
+	isPanic, _ := IsPanic(err)
+	rt.Assert(isPanic, "unreadchannel/error-returned-to-the-caller")
+	rt.Assert(atomic.LoadInt32(m.microTaskCnt) == 0, "unreadchannel/module-count-zero")
+	rt.Assert(atomic.LoadInt32(microTasks) == 0, "unreadchannel/global-count-zero")
+	rt.Reach("unreadchannel-end")
+}
+
 // ---- O2: accounting of every variant, function returning error or panicking ----
 
 func VerifC15_Accounting() {
